@@ -32,6 +32,18 @@ pub const REGS: &[(&str, &str)] = &[
     ("chain", ""),
 ];
 
+/// what a marker descriptor returns: 0 = its tag with all arguments (default), 1 = the empty
+/// string, 2 = its tag wrapped in the separators the default renderings use
+static STYLE: std::sync::atomic::AtomicU8 = std::sync::atomic::AtomicU8::new(0);
+
+fn mark(s: String) -> String {
+    match STYLE.load(std::sync::atomic::Ordering::SeqCst) {
+        0 => s,
+        1 => String::new(),
+        _ => format!(",{};:", s),
+    }
+}
+
 fn registered(cfg: u32, kind: &str, name: &str) -> bool {
     REGS.iter().enumerate().any(|(i, (k, n))| cfg & (1 << i) != 0 && *k == kind && (*n == name || n.is_empty()))
 }
@@ -47,15 +59,15 @@ fn install(cfg: u32, clear: bool) {
         }
         let n = name.to_string();
         match *kind {
-            "unary" => m.set_unary_descriptor(n.clone(), Arc::new(move |op, rhs| format!("<U:{}:{}|{}>", n, op, rhs))),
-            "binary" => m.set_binary_descriptor(n.clone(), Arc::new(move |op, l, r| format!("<B:{}:{}|{}|{}>", n, op, l, r))),
-            "postfix" => m.set_postfix_descriptor(n.clone(), Arc::new(move |lhs, op| format!("<P:{}:{}|{}>", n, op, lhs))),
-            "ternary" => m.set_ternary_descriptor(Arc::new(|c, a, b| format!("<T|{}|{}|{}>", c, a, b))),
-            "function" => m.set_function_descriptor(n.clone(), Arc::new(move |name, args| format!("<F:{}:{}|{}>", n, name, args.join("|")))),
-            "reference" => m.set_reference_descriptor(n.clone(), Arc::new(move |name| format!("<R:{}:{}>", n, name))),
-            "list" => m.set_list_descriptor(Arc::new(|items| format!("<L|{}>", items.join("|")))),
-            "map" => m.set_map_descriptor(Arc::new(|items| format!("<M|{}>", items.iter().map(|(k, v)| format!("{}={}", k, v)).collect::<Vec<_>>().join("|")))),
-            "chain" => m.set_chain_descriptor(Arc::new(|items| format!("<C|{}>", items.join("|")))),
+            "unary" => m.set_unary_descriptor(n.clone(), Arc::new(move |op, rhs| mark(format!("<U:{}:{}|{}>", n, op, rhs)))),
+            "binary" => m.set_binary_descriptor(n.clone(), Arc::new(move |op, l, r| mark(format!("<B:{}:{}|{}|{}>", n, op, l, r)))),
+            "postfix" => m.set_postfix_descriptor(n.clone(), Arc::new(move |lhs, op| mark(format!("<P:{}:{}|{}>", n, op, lhs)))),
+            "ternary" => m.set_ternary_descriptor(Arc::new(|c, a, b| mark(format!("<T|{}|{}|{}>", c, a, b)))),
+            "function" => m.set_function_descriptor(n.clone(), Arc::new(move |name, args| mark(format!("<F:{}:{}|{}>", n, name, args.join("|"))))),
+            "reference" => m.set_reference_descriptor(n.clone(), Arc::new(move |name| mark(format!("<R:{}:{}>", n, name)))),
+            "list" => m.set_list_descriptor(Arc::new(|items| mark(format!("<L|{}>", items.join("|"))))),
+            "map" => m.set_map_descriptor(Arc::new(|items| mark(format!("<M|{}>", items.iter().map(|(k, v)| format!("{}={}", k, v)).collect::<Vec<_>>().join("|"))))),
+            "chain" => m.set_chain_descriptor(Arc::new(|items| mark(format!("<C|{}>", items.join("|"))))),
             _ => unreachable!(),
         }
     }
@@ -76,7 +88,7 @@ fn describe(a: &Ast, cfg: u32) -> String {
         }
         Ast::Ref(n) => {
             if registered(cfg, "reference", n) {
-                format!("<R:{}:{}>", n, n)
+                mark(format!("<R:{}:{}>", n, n))
             } else {
                 n.clone()
             }
@@ -84,7 +96,7 @@ fn describe(a: &Ast, cfg: u32) -> String {
         Ast::Unary(op, x) => {
             let r = describe(x, cfg);
             if registered(cfg, "unary", op) {
-                format!("<U:{}:{}|{}>", op, op, r)
+                mark(format!("<U:{}:{}|{}>", op, op, r))
             } else {
                 format!("{}{}", op, r)
             }
@@ -92,7 +104,7 @@ fn describe(a: &Ast, cfg: u32) -> String {
         Ast::Binary(op, l, r) => {
             let (ls, rs) = (describe(l, cfg), describe(r, cfg));
             if registered(cfg, "binary", op) {
-                format!("<B:{}:{}|{}|{}>", op, op, ls, rs)
+                mark(format!("<B:{}:{}|{}|{}>", op, op, ls, rs))
             } else {
                 format!("{}{}{}", ls, op, rs)
             }
@@ -100,7 +112,7 @@ fn describe(a: &Ast, cfg: u32) -> String {
         Ast::Postfix(x, op) => {
             let l = describe(x, cfg);
             if registered(cfg, "postfix", op) {
-                format!("<P:{}:{}|{}>", op, op, l)
+                mark(format!("<P:{}:{}|{}>", op, op, l))
             } else {
                 format!("{}{}", l, op)
             }
@@ -108,7 +120,7 @@ fn describe(a: &Ast, cfg: u32) -> String {
         Ast::Ternary(c, x, y) => {
             let (cs, xs, ys) = (describe(c, cfg), describe(x, cfg), describe(y, cfg));
             if registered(cfg, "ternary", "") {
-                format!("<T|{}|{}|{}>", cs, xs, ys)
+                mark(format!("<T|{}|{}|{}>", cs, xs, ys))
             } else {
                 format!("{}?{}:{}", cs, xs, ys)
             }
@@ -116,7 +128,7 @@ fn describe(a: &Ast, cfg: u32) -> String {
         Ast::Func(n, args) => {
             let v: Vec<String> = args.iter().map(|x| describe(x, cfg)).collect();
             if registered(cfg, "function", n) {
-                format!("<F:{}:{}|{}>", n, n, v.join("|"))
+                mark(format!("<F:{}:{}|{}>", n, n, v.join("|")))
             } else {
                 format!("{}({})", n, v.join(","))
             }
@@ -124,7 +136,7 @@ fn describe(a: &Ast, cfg: u32) -> String {
         Ast::List(items) => {
             let v: Vec<String> = items.iter().map(|x| describe(x, cfg)).collect();
             if registered(cfg, "list", "") {
-                format!("<L|{}>", v.join("|"))
+                mark(format!("<L|{}>", v.join("|")))
             } else {
                 format!("[{}]", v.join(","))
             }
@@ -132,7 +144,7 @@ fn describe(a: &Ast, cfg: u32) -> String {
         Ast::Map(items) => {
             let v: Vec<(String, String)> = items.iter().map(|(k, x)| (describe(k, cfg), describe(x, cfg))).collect();
             if registered(cfg, "map", "") {
-                format!("<M|{}>", v.iter().map(|(k, x)| format!("{}={}", k, x)).collect::<Vec<_>>().join("|"))
+                mark(format!("<M|{}>", v.iter().map(|(k, x)| format!("{}={}", k, x)).collect::<Vec<_>>().join("|")))
             } else {
                 format!("{{{}}}", v.iter().map(|(k, x)| format!("{}:{}", k, x)).collect::<Vec<_>>().join(","))
             }
@@ -140,7 +152,7 @@ fn describe(a: &Ast, cfg: u32) -> String {
         Ast::Stmt(items) => {
             let v: Vec<String> = items.iter().map(|x| describe(x, cfg)).collect();
             if registered(cfg, "chain", "") {
-                format!("<C|{}>", v.join("|"))
+                mark(format!("<C|{}>", v.join("|")))
             } else {
                 v.join(";")
             }
@@ -258,6 +270,26 @@ fn programs(tier: Tier) -> Vec<String> {
     out
 }
 
+/// (style, configuration) cases of the "styles" stage: every configuration with at most two
+/// registrations and the full one, under marker styles 1 (empty string) and 2 (separators)
+fn style_cases() -> Vec<(u8, u32)> {
+    let n = REGS.len();
+    let mut cfgs: Vec<u32> = vec![(1u32 << n) - 1];
+    for i in 0..n {
+        cfgs.push(1 << i);
+        for j in (i + 1)..n {
+            cfgs.push((1 << i) | (1 << j));
+        }
+    }
+    let mut v = Vec::new();
+    for style in [1u8, 2] {
+        for c in &cfgs {
+            v.push((style, *c));
+        }
+    }
+    v
+}
+
 fn configs(_tier: Tier) -> Vec<u32> {
     (0..(1u32 << REGS.len())).collect()
 }
@@ -328,6 +360,7 @@ impl Prop for C18 {
                 Stage { name: "subsets".into(), len: n, chunk: (n / 32).max(16), timeout: Duration::from_secs(1200), what: "registration subsets reached through verif_clear() + the public setters".into() },
                 Stage { name: "schedules".into(), len: super::c13::extra_workloads().len() as u64, chunk: 1, timeout: Duration::from_secs(900), what: "describe() racing set_*_descriptor under the controlled scheduler (all schedules with <= 2 preemptions; results must equal a sequential order; the descriptor registered last must be used afterwards)".into() },
                 Stage { name: "reregister".into(), len: REGS.len() as u64, chunk: 1, timeout: Duration::from_secs(120), what: "each (kind, name) registered twice with different descriptors, no clear in between: the later one must be used (fresh process each)".into() },
+                Stage { name: "styles".into(), len: style_cases().len() as u64, chunk: 8, timeout: Duration::from_secs(600), what: "marker descriptors that return the empty string, or text made of the separators the default renderings use (',' ';' ':'): every configuration of <= 2 registrations and the full one".into() },
                 Stage { name: "fresh".into(), len: (REGS.len() + 2) as u64, chunk: 1, timeout: Duration::from_secs(120), what: "the empty, every singleton and the full configuration, each in a fresh process without the clear hook".into() },
             ],
             rule: format!(
@@ -355,7 +388,21 @@ impl Prop for C18 {
             }
             return;
         }
-        let stage = if stage >= 2 { stage - 1 } else { stage };
+        if stage == 3 {
+            let cases = style_cases();
+            for i in a..b {
+                out.idx = Some(i);
+                let (style, cfg) = cases[i as usize];
+                STYLE.store(style, std::sync::atomic::Ordering::SeqCst);
+                check_config(cfg, &progs, if style == 1 { "styles[empty]" } else { "styles[separators]" }, true, out);
+                STYLE.store(0, std::sync::atomic::Ordering::SeqCst);
+                out.nontrivial.insert(cfg as u64 + ((style as u64) << 44));
+                out.count("states", 1);
+                out.count("transitions", progs.len() as u64);
+            }
+            return;
+        }
+        let stage = if stage == 4 { 2 } else if stage >= 2 { stage - 1 } else { stage };
         if stage == 1 {
             for i in a..b {
                 out.idx = Some(i);
@@ -403,6 +450,9 @@ impl Prop for C18 {
             super::c13::extra_workloads()[i as usize].name.to_string()
         } else if stage == 2 {
             format!("decoy then marker for {:?}", REGS[i as usize])
+        } else if stage == 3 {
+            let (style, cfg) = style_cases()[i as usize];
+            format!("style={} config={:#06x}", style, cfg)
         } else {
             format!("fresh {}", i)
         }
